@@ -168,6 +168,8 @@ def handle (op : String) (req : Json) : R Json := do
     let tr ← resplit xr tr0
     let ldText := fun (lines : List String) (t0 : Table) (ua : Bool) =>
       if short then loadText x lines ua else load x delim t0 ua
+    let ldData := fun (lines : List String) (t0 : Table) (ua : Bool) =>
+      if short then loadCall x lines ua false else loadData x delim t0 ua
     let chanRes := channels.zipIdx.map (fun (ch, ci) =>
       jObj [("channel", jStr ch),
             ("rows", jImg (readRows x comma ch tr)),
@@ -190,7 +192,9 @@ def handle (op : String) (req : Json) : R Json := do
                 ("spec_sniff_rows", jFmt .rows), ("spec_sniff_cols", jFmt .columns),
                 ("other_rows", jBool (otherFile tr)), ("other_cols", jBool (otherFile tc)),
                 ("load_rows", jLoad (ldText xr tr0 false)), ("load_cols", jLoad (ldText xc tc0 false)),
-                ("load_rows_analog", jLoad (ldText xr tr0 true)), ("load_cols_analog", jLoad (ldText xc tc0 true))])
+                ("load_rows_analog", jLoad (ldText xr tr0 true)), ("load_cols_analog", jLoad (ldText xc tc0 true)),
+                ("loaddata_rows", jLoadOut (ldData xr tr0 false)), ("loaddata_cols", jLoadOut (ldData xc tc0 false)),
+                ("loaddata_rows_analog", jLoadOut (ldData xr tr0 true)), ("loaddata_cols_analog", jLoadOut (ldData xc tc0 true))])
   | "c03.sniff" =>
     -- `lines`: the lines of the decoded text; the sniffer looks for a substring of the whole line
     let lines ← getList asStr req "lines"
